@@ -18,13 +18,22 @@ import (
 )
 
 func init() {
-	register(&Rule{ID: "R-EOFKIND", Props: []string{"C19"}, Doc: "the error of io.ReadFull/io.ReadAtLeast (io.ErrUnexpectedEOF on short data) never leaves a function of the root package untranslated", Run: runEOFKind})
+	register(&Rule{ID: "R-EOFKIND", Props: []string{"C19", "C12", "C13"}, Doc: "the error of io.ReadFull/io.ReadAtLeast (io.ErrUnexpectedEOF on short data) never leaves a function of the root package (C19, C12) or of package buffer (C12, C13) untranslated", Run: runEOFKind})
 }
 
 func runEOFKind(r *core.Run) {
 	calls, funcs := 0, 0
+	scope := map[string]bool{"parse": true}
+	floor := 100
+	switch r.Prop {
+	case "C12":
+		scope["buffer"] = true
+	case "C13":
+		scope = map[string]bool{"buffer": true}
+		floor = 30
+	}
 	for _, fn := range allModuleFuncs(r) {
-		if core.RelPkg(fnPkg(fn)) != "parse" || len(fn.Blocks) == 0 {
+		if !scope[core.RelPkg(fnPkg(fn))] || len(fn.Blocks) == 0 {
 			continue
 		}
 		funcs++
@@ -110,9 +119,9 @@ func runEOFKind(r *core.Run) {
 		}
 	}
 	if calls == 0 {
-		r.OK("no call of io.ReadFull / io.ReadAtLeast in the root package", 0, fmt.Sprintf("%d functions scanned (callees resolved statically)", funcs))
+		r.OK("no call of io.ReadFull / io.ReadAtLeast in scope", 0, fmt.Sprintf("%d functions scanned (callees resolved statically)", funcs))
 	}
-	r.Count("functions of the root package scanned for io.ReadFull/io.ReadAtLeast", funcs)
+	r.Count("functions scanned for io.ReadFull/io.ReadAtLeast", funcs)
 	r.Count("io.ReadFull/io.ReadAtLeast calls", calls)
-	r.Floor("functions of the root package", funcs, 100)
+	r.Floor("functions in scope", funcs, floor)
 }
